@@ -29,6 +29,9 @@ func main() {
 		fmt.Fprintln(os.Stderr, "usage: ucfgconf replay|drive <family> [flags]")
 		os.Exit(2)
 	}
+	if os.Args[1] == "child" {
+		os.Exit(childMain(os.Args[2]))
+	}
 	f, ok := families[os.Args[2]]
 	if !ok {
 		fmt.Fprintln(os.Stderr, "unknown family", os.Args[2])
